@@ -574,8 +574,9 @@ def run(chk: Check):
     from .c08 import rule_l2, rule_l4
     rule_l4(chk, ix)
     rule_l2(chk, ix)
-    from .c09 import rule_k6
+    from .c09 import rule_k1, rule_k6
     rule_k6(chk, constfold.fold_tokenize(), ix, False)
+    rule_k1(chk, constfold.fold_tokenize(), False)   # what the scanner accepts as a lexeme / line joiner
     from .. import typed
     typed.run().feed(chk, {"S1-joinedstr-bytes": "X9-bytes-mixing", "E4-mixed-literal-add": "X9-bytes-mixing"})
     chk.floor("X8-fstring-lone-rbrace", 1)
